@@ -30,6 +30,7 @@ import (
 	"github.com/emersion/go-smtp"
 	"github.com/foxcpp/go-mockdns"
 	"github.com/foxcpp/maddy/framework/buffer"
+	"github.com/foxcpp/maddy/framework/config"
 	"github.com/foxcpp/maddy/framework/log"
 	"github.com/foxcpp/maddy/framework/module"
 	"github.com/foxcpp/maddy/internal/limits"
@@ -252,7 +253,7 @@ const c19mxGrace = 25 * time.Millisecond
 type c19mxCase struct {
 	maxKeys, maxConns int
 	maxLife, stale    int64
-	ops               []string // o<k> x<k> c t<d> b<id> k s
+	ops               []string // o<k> x<k> r<j> c a t<d> b<id> k s
 	style             string
 }
 
@@ -351,6 +352,73 @@ func c19mxGuard(out *vh.Out, op string, f func(rec *c19mxRec)) {
 	vcoop.SetManual(false, time.Time{})
 }
 
+// The target runs with a real limits.Group: `all concurrency 64`, `ip concurrency 64`, `source concurrency 1` (no
+// destination limit: with one, a delivery whose context ends during the probe of pool.Get — op x<k> — is refused or
+// not by the toss of a select between a free slot and the dead context).  Every delivery has a sender domain of its own, so ordinary deliveries never wait for a
+// limit.  The one slot of the sender domain c19mxBusy is taken by the harness for the whole case: a Start with a
+// sender of that domain waits for the source limit and is refused when its context ends (op r<j>, j/4 = 0); for
+// j/4 = 1 the harness fills the global limit for the duration of the Start instead.
+const (
+	c19mxGlobal = 64
+	c19mxBusy   = "busy.invalid"
+)
+
+var c19mxIP = net.IPv4(127, 0, 0, 1)
+
+func c19mxLimits() *limits.Group {
+	m, err := limits.New("limits", "verif_c19", nil, nil)
+	if err != nil {
+		panic(err)
+	}
+	g := m.(*limits.Group)
+	node := func(scope, n string) config.Node {
+		return config.Node{Name: scope, Args: []string{"concurrency", n}}
+	}
+	if err := g.Init(config.NewMap(nil, config.Node{Children: []config.Node{
+		node("all", strconv.Itoa(c19mxGlobal)), node("ip", strconv.Itoa(c19mxGlobal)), node("source", "1"),
+	}})); err != nil {
+		panic(err)
+	}
+	if err := g.TakeMsg(context.Background(), c19mxIP, c19mxBusy); err != nil {
+		panic(err)
+	}
+	return g
+}
+
+// c19mxShutBlocked counts the cases in which Target.Close did not come back.
+var c19mxShutBlocked int32
+
+// c19mxClose: the liveness obligation of the shutdown.  Every operation of the history has returned, every delivery
+// has been ended (Commit / Abort) and no next hop withholds an answer: Target.Close() has nothing left to wait
+// for and must come back.  The real-time guard is generous (10 s for something that takes microseconds; shorter
+// once the tree under test has shown that it blocks for good).  A Close that does not come back is abandoned.
+func c19mxClose(tgt *Target) (returned bool, panicked string, patience time.Duration) {
+	patience = 10 * time.Second
+	if n := atomic.LoadInt32(&c19mxShutBlocked); n >= 3 {
+		patience = 60 * time.Millisecond
+	} else if n >= 1 {
+		patience = time.Second
+	}
+	done := make(chan string, 1)
+	go func() {
+		defer func() {
+			if p := recover(); p != nil {
+				done <- fmt.Sprint(p)
+				return
+			}
+			done <- ""
+		}()
+		tgt.Close()
+	}()
+	select {
+	case p := <-done:
+		return true, p, patience
+	case <-time.After(patience):
+		atomic.AddInt32(&c19mxShutBlocked, 1)
+		return false, "", patience
+	}
+}
+
 func c19mxTarget(env *c19mxEnv, cs *c19mxCase) *Target {
 	zones := map[string]mockdns.Zone{}
 	for k := 0; k < c19mxDomains; k++ {
@@ -364,7 +432,7 @@ func c19mxTarget(env *c19mxEnv, cs *c19mxCase) *Target {
 		dialer:         env.dial,
 		tlsConfig:      &tls.Config{},
 		Log:            log.Logger{Out: log.NopOutput{}},
-		limits:         &limits.Group{},
+		limits:         c19mxLimits(),
 		connReuseLimit: 1000,
 		pool: pool.New(pool.Config{
 			MaxKeys:             cs.maxKeys,
@@ -419,7 +487,22 @@ func c19mxRun1(env *c19mxEnv, cs *c19mxCase, out *c19mxRec) {
 		shut  bool
 		toks  []string
 		nmsg  int
+		// shutdown requested and Target.Close() did not come back
+		shutBlocked bool
+		refused     int
 	)
+	shutdown := func() {
+		ok, pan, patience := c19mxClose(tgt)
+		shut = true
+		if pan != "" {
+			violate("C19/panic", "Target.Close panicked: "+pan)
+		}
+		if !ok {
+			shutBlocked = true
+			violate("C19/shutdown-blocked", fmt.Sprintf("Target.Close() did not return within %v (10 s in the first such case of the run): every operation of the history had returned, no delivery was open (%d committed/aborted, %d Start(s) refused by the limits), no next hop was withholding an answer",
+				patience, nmsg-refused-len(open), refused))
+		}
+	}
 	step := func(o string) {
 		switch o[0] {
 		case 'o', 'x':
@@ -432,9 +515,10 @@ func c19mxRun1(env *c19mxEnv, cs *c19mxCase, out *c19mxRec) {
 				cctx = &c19mxCtx{done: make(chan struct{}), deadline: nmsg%2 == 1}
 				ctx = cctx
 			}
-			d, err := tgt.Start(ctx, &module.MsgMetadata{ID: "c19-" + strconv.Itoa(nmsg)}, "sender@example.org")
+			d, err := tgt.Start(ctx, &module.MsgMetadata{ID: "c19-" + strconv.Itoa(nmsg)}, "sender@s"+strconv.Itoa(nmsg)+".example.org")
 			if err != nil {
 				toks = append(toks, "E")
+				out.Stat("mx.Start failed (not asked for)")
 				return
 			}
 			rcpt := "rcpt" + strconv.Itoa(nmsg) + "@" + dom
@@ -541,7 +625,74 @@ func c19mxRun1(env *c19mxEnv, cs *c19mxCase, out *c19mxRec) {
 			}
 			m.held, m.usedAt, m.useStamp = true, clock, mc.LastUseAt()
 			open = append(open, &c19mxOpen{d: d, k: k, c: m})
-		case 'c':
+		case 'r':
+			// a Start that the message limits refuse: the context of the caller ends (j%4: cancelled before the call,
+			// deadline already past, cancelled while Start waits, timed out while Start waits) while TakeMsg waits for
+			// the source limit (j/4 = 0: the slot of the sender's domain is taken) or for the global limit (j/4 = 1:
+			// filled by the harness for the duration of the call).  Nothing is delivered, nothing touches the pool.
+			j, _ := strconv.Atoi(o[1:])
+			nmsg++
+			refused++
+			sender := "sender@" + c19mxBusy
+			var fills []string
+			if j/4%2 == 1 {
+				sender = "sender@s" + strconv.Itoa(nmsg) + ".example.org"
+				for i := 0; i < c19mxGlobal-1-len(open); i++ {
+					fctx, fcancel := context.WithTimeout(ctx, time.Second)
+					src := "fill" + strconv.Itoa(i) + ".invalid"
+					err := tgt.limits.TakeMsg(fctx, c19mxIP, src)
+					fcancel()
+					if err != nil {
+						break // (a changed tree that holds more slots than deliveries are open)
+					}
+					fills = append(fills, src)
+				}
+			}
+			var rctx context.Context
+			var cancel context.CancelFunc
+			switch j % 4 {
+			case 0:
+				rctx, cancel = context.WithCancel(ctx)
+				cancel()
+			case 1:
+				rctx, cancel = context.WithDeadline(ctx, time.Now().Add(-time.Second))
+			case 2:
+				rctx, cancel = context.WithCancel(ctx)
+				tm := time.AfterFunc(2*time.Millisecond, cancel)
+				defer tm.Stop()
+			default:
+				rctx, cancel = context.WithTimeout(ctx, 2*time.Millisecond)
+			}
+			d, err := tgt.Start(rctx, &module.MsgMetadata{ID: "c19-" + strconv.Itoa(nmsg)}, sender)
+			cancel()
+			for _, src := range fills {
+				tgt.limits.ReleaseMsg(c19mxIP, src)
+			}
+			if err == nil {
+				// (not the unchanged code: the limit was not enforced) the delivery is ended at once
+				toks = append(toks, "R!")
+				out.Stat("mx.Start was to be refused by the limits and was accepted")
+				d.Abort(ctx)
+				return
+			}
+			toks = append(toks, "R")
+			out.Stat(fmt.Sprintf("mx.Start refused by the %s limit, context %s", []string{"source", "global"}[j/4%2],
+				[]string{"cancelled before", "past its deadline before", "cancelled during", "timed out during"}[j%4]))
+			if len(open) > 0 {
+				out.Stat("mx.Start refused while other deliveries are open")
+			}
+			if !shut {
+				pooledNow := 0
+				for _, m := range conns {
+					if !m.held && m.sess != nil && !m.sess.isClosed() {
+						pooledNow++
+					}
+				}
+				if pooledNow > 0 {
+					out.Stat("mx.Start refused while connections sit in the pool")
+				}
+			}
+		case 'c', 'a':
 			if len(open) == 0 {
 				toks = append(toks, "-")
 				return
@@ -549,8 +700,13 @@ func c19mxRun1(env *c19mxEnv, cs *c19mxCase, out *c19mxRec) {
 			od := open[0]
 			open = open[1:]
 			od.c.held, od.c.retKey, od.c.retAt = false, od.k, clock
-			od.d.Commit(ctx)
-			toks = append(toks, "c")
+			if o[0] == 'a' {
+				od.d.Abort(ctx)
+				out.Stat("mx.delivery aborted after its message was sent")
+			} else {
+				od.d.Commit(ctx)
+			}
+			toks = append(toks, o[:1])
 			// nothing but MAIL/RCPT/DATA of a delivery moves the idle stamp of a connection (the model: only `use`)
 			if st := od.c.c.LastUseAt(); !st.Equal(od.c.useStamp) {
 				violate("C19/usable-moved-idle-stamp", fmt.Sprintf("connection %d: LastUseAt moved by %v while the delivery ended (Usable / Return), no command of a transaction was sent",
@@ -575,8 +731,7 @@ func c19mxRun1(env *c19mxEnv, cs *c19mxCase, out *c19mxRec) {
 			toks = append(toks, "k")
 		case 's':
 			if !shut {
-				tgt.Close()
-				shut = true
+				shutdown()
 			}
 			toks = append(toks, "s")
 		}
@@ -617,6 +772,10 @@ func c19mxRun1(env *c19mxEnv, cs *c19mxCase, out *c19mxRec) {
 	} else if n >= 2 {
 		patience = time.Second
 	}
+	if shutBlocked {
+		// pool.Close() was never reached: nobody is going to close what sits in the pool
+		patience = 30 * time.Millisecond
+	}
 	deadline := time.Now().Add(patience)
 	for {
 		pending := false
@@ -626,7 +785,7 @@ func c19mxRun1(env *c19mxEnv, cs *c19mxCase, out *c19mxRec) {
 			}
 		}
 		if !pending || time.Now().After(deadline) {
-			if pending {
+			if pending && !shutBlocked {
 				atomic.AddInt32(&c19mxSlow, 1)
 			}
 			break
@@ -644,6 +803,12 @@ func c19mxRun1(env *c19mxEnv, cs *c19mxCase, out *c19mxRec) {
 		} else if shut && !m.held {
 			violate("C19/conn-lost", fmt.Sprintf("connection %d (last returned under %s at %d) is still open after the target was closed: neither handed out nor closed",
 				m.id, c19mxDomain(m.retKey), m.retAt))
+			if m.retKey >= 0 {
+				// what the next hop saw: a connection that was given back to the live pool, no further transaction, and after
+				// the shutdown of the target no QUIT and no close
+				violate("C19/returned-conn-never-closed", fmt.Sprintf("connection %d was returned to the live pool (under %s at %d) and after the shutdown of the target (Target.Close returned: %v) the server has seen neither QUIT nor close on it",
+					m.id, c19mxDomain(m.retKey), m.retAt, !shutBlocked))
+			}
 		}
 	}
 	sort.Ints(closed)
@@ -681,7 +846,7 @@ func c19mxRun1(env *c19mxEnv, cs *c19mxCase, out *c19mxRec) {
 			if nopenNow[k] > maxOpen {
 				maxOpen = nopenNow[k]
 			}
-		case 'c':
+		case 'c', 'a':
 			for k := range nopenNow { // (an approximation: the oldest open delivery ends)
 				if nopenNow[k] > 0 {
 					nopenNow[k]--
@@ -703,6 +868,8 @@ func c19mxRun1(env *c19mxEnv, cs *c19mxCase, out *c19mxRec) {
 			out.Stat("mx.delivery on a pooled connection")
 		case 'E':
 			out.Stat("mx.delivery failed")
+		case 'R':
+			out.Stat("mx.Start refused by the limits")
 		case 'b':
 			out.Stat("mx.server drops an idle connection")
 		}
@@ -711,8 +878,8 @@ func c19mxRun1(env *c19mxEnv, cs *c19mxCase, out *c19mxRec) {
 	for _, od := range open {
 		od.d.Abort(ctx)
 	}
-	if !shut {
-		tgt.Close()
+	if !shut && !shutBlocked {
+		c19mxClose(tgt)
 	}
 }
 
@@ -925,6 +1092,23 @@ func c19mxGen(r *vh.Rng) *c19mxCase {
 			emitCommit()
 		}
 	}
+	// some deliveries are aborted instead of committed (remoteDelivery.Abort: the same duties towards the pool)
+	for i, o := range cs.ops {
+		if o == "c" && r.Chance(8) {
+			cs.ops[i] = "a"
+		}
+	}
+	// Starts refused by the message limits, at any point of the history (also as the very last thing before shutdown)
+	if r.Chance(30) {
+		for i, m := 0, 1+r.Intn(2); i < m; i++ {
+			at := r.Intn(len(cs.ops) + 1)
+			if r.Chance(40) {
+				at = len(cs.ops)
+			}
+			cs.ops = append(cs.ops[:at:at], append([]string{"r" + strconv.Itoa(r.Intn(8))}, cs.ops[at:]...)...)
+		}
+		cs.style += "+refused"
+	}
 	cs.ops = append(cs.ops, "s")
 	return cs
 }
@@ -953,9 +1137,9 @@ func c19mxParse(line string) (*c19mxCase, error) {
 			if k := n(o[1:]); k < 0 || k >= c19mxDomains {
 				return nil, fmt.Errorf("no such domain")
 			}
-		case 't', 'b':
+		case 't', 'b', 'r':
 			n(o[1:])
-		case 'c', 'k', 's':
+		case 'c', 'a', 'k', 's':
 		default:
 			return nil, fmt.Errorf("bad op %q", o)
 		}
